@@ -114,7 +114,7 @@ def check_case(case, ctx):
     content = make_content(case)
     # deterministic path (a pure function of the case and the shard): a defect that matches against the *path string*
     # must give the same answer every time the case is re-executed
-    d = os.path.join(tempfile.gettempdir(), f'verif_c14_{case_hash(case)}_{ctx.hash_seed}_{ctx.shard_index}')
+    d = os.path.join(tempfile.gettempdir(), f'verif_c14_{case_hash(case)}_{ctx.hash_seed}_{ctx.shard_index}_{os.getpid()}')   # constant within the worker process
     shutil.rmtree(d, ignore_errors=True)
     os.makedirs(d)
     try:
@@ -138,6 +138,16 @@ def check_case(case, ctx):
                     continue
                 raise Violation(kind, c, f'{dsl.render(case["tree"])} ({pattern!r}).{name}(path, is_path=True) = '
                                 f'{via_path!r} but on the file\'s text {text!r} = {via_text!r}')
+        # (1b) with is_path=False the source is text, whether or not a file of that name happens to exist
+        as_text_while_file_exists = {name: call(p, name, path, False, case) for name in path_methods()}
+        os.remove(path)
+        for name, r1 in as_text_while_file_exists.items():
+            r2 = call(p, name, path, False, case)
+            if r1 != r2:
+                raise Violation(f'text_treated_as_path:{name}', dict(case, method=name), f'{pattern!r}.{name}({path!r}, is_path=False) = {r1!r} while a file of '
+                                f'that name exists, {r2!r} after it was removed: the text was read as a path')
+        with open(path, 'wb') as f:
+            f.write(content.encode('utf-8'))
         # (2) windows
         nl, nr = case['nl'], case['nr']
         want = [text[max(s - nl, 0):min(e + nr, len(text))] for s, e in spans]
@@ -183,11 +193,11 @@ def strategy(spec, ctx):
         'seps': st.lists(st.sampled_from(['\n', '\n', ' ', '\r\n', '\r', '\n\n', ' é ', '']), min_size=1, max_size=3),
         'head': st.one_of(st.text(st.characters(exclude_categories=['Cs']), max_size=4), st.sampled_from(['\ufeff', '\ufeffa', '\ufffe', '\x00', '\r', '\n', '\x1a', '#!'])),
         'tail': st.text(st.characters(exclude_categories=['Cs']), max_size=4),
-        'nl': st.one_of(st.integers(0, 6), st.integers(0, 80)),
-        'nr': st.one_of(st.integers(0, 6), st.integers(0, 80)),
+        'nl': st.one_of(st.integers(0, 6), st.integers(0, 80), st.sampled_from([255, 256, 257, 300, 1000, 10 ** 6])),
+        'nr': st.one_of(st.integers(0, 6), st.integers(0, 80), st.sampled_from([255, 256, 257, 300, 1000, 10 ** 6])),
         'include_empty': st.booleans(),
         'relative': st.booleans(),
-        'repl': st.sampled_from(['', '-', '<>', 'é']),
+        'repl': st.sampled_from(['', '-', '<>', 'é', '$1', '{0}', '&']),
         'count': st.integers(0, 3),
         'bad': st.sampled_from(sorted(BAD_SIZES)),
         'state': st.sampled_from(['plain', 'plain', 'compile', 'gcp_keep', 'gcp_discard']),
